@@ -18,7 +18,7 @@ ASSUMPTIONS = [
     "ids below a pre-fixed node may be absent from the result (by design)",
 ]
 BOUNDS = {
-    "quick": "abc explicit (64 interval interpretations each), at explicit (64), diamonds explicit, fixed/ab",
+    "quick": "abc explicit (64 interval interpretations each), at explicit (64), diamonds explicit, fixed/ab; 16-bit family wide/1 x 9 interval options per wide leaf x grid completions",
     "thorough": "quick + abt (256 interpretations), abc generated, abu, d3/abc, diamonds generated, abct",
 }
 QUICK = ["abc/explicit", "at/explicit", "diamond/explicit", "fixed/ab"]
@@ -26,13 +26,101 @@ THOROUGH = QUICK + ["abt/explicit", "abc/generated", "au/explicit", "d3/abc/expl
 
 
 def shards(tier):
-    return families.shards_for(QUICK if tier == "quick" else THOROUGH, 250)
+    return families.shards_for(QUICK if tier == "quick" else THOROUGH, 250) + [("W",) + s for s in families.shards_for(["wide/1"], 12)]
 
 
 def run_shard(desc, acc, tier):
+    if desc[0] == "W":
+        _, fam, lo, hi = desc
+        for k, m in enumerate(families.family(fam)[lo:hi], start=lo):
+            check_wide(m, acc, fam, k)
+        return
     fam, lo, hi = desc
     for k, m in enumerate(families.family(fam)[lo:hi], start=lo):
         check_model(m, acc, fam, k)
+
+
+WIDE_OPTS = [None, (0, 30000), (-30000, 30000), "lo..0", "1..hi", "lo", "hi", (0, 0), (-1, 1)]
+CENTRES = (0, 32767, -32767, -32768, 30000, -30000, 1, -1)
+
+
+def wide_grid(lo, hi):
+    """Completion grid of a 16-bit leaf restricted to [lo,hi]: every c+delta, c in CENTRES and the interval ends (and their negations),
+    |delta|<=8.  The reference of these families is piecewise constant with breakpoints at (threshold - other leaves), which lie on the grid
+    of the other leaf negated plus a small offset; this is an argument about the reference - coverage is the grid, and is reported as such."""
+    cs = set(CENTRES) | {lo, hi, -lo, -hi}
+    pts = {c + d for c in cs for d in range(-8, 9)}
+    return np.array(sorted(p for p in pts if lo <= p <= hi), dtype=np.int64)
+
+
+def check_wide(m, acc, fam, k, only=None):
+    case0 = {"fam": fam, "k": k, "ast": m, "wide": True}
+    obj, b = bind(m)
+    if obj.errors():
+        acc.n("skipped_invalid")
+        return
+    acc.n("models")
+    acc.state(m)
+    leaves = leaves_of(m)
+    lids = list(leaves)
+    comps = compounds_of(m)
+    idof = {c: b.memo[c].id for c in comps}
+    opts = []
+    for i in lids:
+        lo, hi = leaves[i]
+        if hi - lo > 100:
+            o = []
+            for w in WIDE_OPTS:
+                if w == "lo..0":
+                    w = (lo, 0)
+                elif w == "1..hi":
+                    w = (1, hi)
+                elif w == "lo":
+                    w = (lo, lo)
+                elif w == "hi":
+                    w = (hi, hi)
+                if w is None or (lo <= w[0] and w[1] <= hi):
+                    o.append(w)
+            opts.append(o)
+        else:
+            opts.append(leaf_options(lo, hi))
+    for ii, choice in enumerate(itertools.product(*opts)):
+        if only is not None and ii != only:
+            continue
+        interp = {}
+        grids = []
+        for j, (i, rng) in enumerate(zip(lids, choice)):
+            lo, hi = leaves[i] if rng is None else rng
+            if rng is not None:
+                interp[i] = as_value(rng, (ii + j + k) % 3)
+            grids.append(wide_grid(lo, hi) if hi - lo > 100 else np.arange(lo, hi + 1, dtype=np.int64))
+        mesh = np.meshgrid(*grids, indexing="ij") if grids else []
+        env = {i: g.reshape(-1) for i, g in zip(lids, mesh)}
+        table = {}
+        ref.truth_vec(m, env, table)
+        case = dict(case0, interp_index=ii)
+        obj, _ = bind(m)
+        acc.n("traces")
+        acc.n("transitions")
+        try:
+            res = obj.evaluate_propositions(interp)
+        except BaseException as e:
+            acc.violation(None, case, {"what": "evaluate_propositions raised", "exc": repr(e), "model": show(m), "interpretation": repr(interp)})
+            continue
+        acc.obs(sorted((str(k_), tuple(map(int, v.as_tuple()))) for k_, v in res.items()))
+        for node, vals in table.items():
+            nid = node[1] if node[0] == 'L' else idof[node]
+            got = res.get(nid)
+            mn, mx = int(vals.min()), int(vals.max())
+            if got is None or got.lower > mn or got.upper < mx:
+                jbad = int(np.argmax(vals > got.upper)) if got is not None and got.upper < mx else (int(np.argmax(vals < got.lower)) if got is not None else 0)
+                acc.violation(None, case, {"what": "returned bounds do not contain the node's value under every completion", "model": show(m),
+                                           "interpretation": repr(interp), "node": str(nid), "returned": None if got is None else tuple(map(int, got.as_tuple())),
+                                           "reference_range_over_grid_completions": (mn, mx), "contradicting_completion": {i: int(env[i][jbad]) for i in lids}})
+                break
+        else:
+            acc.hist("wide_top_result", tuple(map(int, res[idof[m]].as_tuple())))
+            acc.nontriv((m, ii))
 
 
 def leaf_options(lo, hi):
@@ -178,4 +266,7 @@ def check_model(m, acc, fam, k, only_interp=None):
 
 def replay(case, acc):
     from ..runner import tuplify
+    if case.get("wide"):
+        check_wide(tuplify(case["ast"]), acc, case["fam"], case["k"], only=case.get("interp_index"))
+        return
     check_model(tuplify(case["ast"]), acc, case["fam"], case["k"], only_interp=case.get("interp_index"))
